@@ -605,10 +605,23 @@ fn small_bytes(rng: &mut Rng) -> Vec<u8> {
 /// value tree for environments / quoted data
 pub fn gen_value(rng: &mut Rng, depth: u32) -> T {
     if depth == 0 || rng.chance(2, 5) {
-        return match rng.below(4) {
+        return match rng.below(5) {
             0 => int_atom(&edge_ints(rng)),
             1 => T::A(small_bytes(rng)),
             2 => nil(),
+            3 => {
+                // short atoms that are *not* canonical integers (redundant leading 00 / ff bytes): any
+                // conversion through a number would change them
+                let k = rng.below(3) as usize + 1;
+                let mut b = vec![if rng.chance(3, 4) { 0u8 } else { 0xff }; k];
+                let extra_ = rng.below(3) as usize;
+                b.extend(rng.bytes(extra_));
+                if rng.chance(1, 2) {
+                    let l = b.len();
+                    b[l - 1] = *rng.pick(&[0x01u8, 0x7f, 0x80, 0xff, 0x00]);
+                }
+                T::A(b)
+            }
             _ => atom(&[rng.below(128) as u8]),
         };
     }
@@ -967,6 +980,37 @@ fn gen_pyrun(rng: &mut Rng, n: usize, tier: &str) -> Vec<String> {
             let flagsets: &[u32] = if tier == "thorough" { &[0x4, 0x0, 0xffff_fffb] } else { &[0x4] };
             for &w in flagsets {
                 push(&mut out, w, 0, &wire(&last), &[0x80]);
+            }
+        }
+    }
+    // blobs in the *other* wire formats (back-references, serde_2026) and with the 0xfe marker in node
+    // position, as program and as environment: run_serialized_chia_program reads the classic format only
+    {
+        let classic_env = [0xffu8, 0x64, 0x80];
+        let others: Vec<Vec<u8>> = vec![
+            vec![0xff, 0x64, 0xfe, 0x02],
+            vec![0xff, 0xff, 0x01, 0x02, 0xfe, 0x02],
+            vec![0xfe, 0x01],
+            vec![0xff, 0x01, 0xfe, 0x02],
+            vec![0xff, 0x86, 0x66, 0x6f, 0x6f, 0x62, 0x61, 0x72, 0xfe, 0x02],
+            {
+                let mut a = Allocator::new();
+                let x = a.new_atom(b"hello world, hello world").unwrap();
+                let p = a.new_pair(x, x).unwrap();
+                node_to_bytes_backrefs(&a, p).unwrap()
+            },
+            {
+                let mut a = Allocator::new();
+                let x = a.new_atom(b"abc").unwrap();
+                let p = a.new_pair(x, x).unwrap();
+                serialize_2026(&a, p, 1).unwrap_or_default()
+            },
+        ];
+        for o in &others {
+            for w in [0u32, MEMPOOL_MODE.bits()] {
+                push(&mut out, w, 0, &[0x01], o); // program `1` returns the environment
+                push(&mut out, w, 0, o, &classic_env);
+                push(&mut out, w, 0, &[0xff, 0x10, 0xff, 0x02, 0xff, 0x03, 0x80], o);
             }
         }
     }
